@@ -1710,6 +1710,9 @@ func EncodeNullableValue(val TypedValue, colType SQLValueType, maxLen int) ([]by
 	return EncodeRawValue(v, colType, maxLen, true)
 }
 
+// nullValueLen is the length marker of a NULL in the nullable value encoding
+const nullValueLen = math.MaxUint32
+
 // EncodeRawValue encode a value in a byte format. This is the internal binary representation of a value. Can be decoded with DecodeValue.
 func EncodeRawValue(val interface{}, colType SQLValueType, maxLen int, nullable bool) ([]byte, error) {
 	convVal, err := mayApplyImplicitConversion(val, colType)
@@ -1722,8 +1725,9 @@ func EncodeRawValue(val interface{}, colType SQLValueType, maxLen int, nullable 
 	}
 
 	if convVal == nil {
+		// NULL must be distinguishable from an empty (zero-length) value
 		encv := make([]byte, EncLenLen)
-		binary.BigEndian.PutUint32(encv[:], uint32(0))
+		binary.BigEndian.PutUint32(encv[:], nullValueLen)
 		return encv, nil
 	}
 
@@ -1887,13 +1891,13 @@ func DecodeNullableValue(b []byte, colType SQLValueType) (TypedValue, int, error
 }
 
 func decodeValue(b []byte, colType SQLValueType, nullable bool) (TypedValue, int, error) {
+	if nullable && len(b) >= EncLenLen && binary.BigEndian.Uint32(b) == nullValueLen {
+		return &NullValue{t: colType}, EncLenLen, nil
+	}
+
 	vlen, voff, err := DecodeValueLength(b)
 	if err != nil {
 		return nil, 0, err
-	}
-
-	if vlen == 0 && nullable {
-		return &NullValue{t: colType}, voff, nil
 	}
 
 	switch colType {
